@@ -333,9 +333,11 @@ def refused_leaves_no_trace(ctx, script, real, keyp):
                 refused = len(rsp) >= 3 and rsp[2].lstrip("-").isdigit() and int(rsp[2]) < 0
                 # SETFORMAT answered with ANOTHER version than the one asked for is a refusal as well (the peer is expected to
                 # ask again with the suggested version): nothing may have been switched
-                if (not refused and len(rsp) >= 4 and rsp[1] == "SETFORMAT" and rsp[2].isdigit() and rsp[3].lstrip("-").isdigit()
-                        and int(rsp[2]) != int(rsp[3])):
-                    refused = True
+                if not refused and len(rsp) == 4 and rsp[1] == "SETFORMAT" and rsp[2].isdigit():
+                    try:
+                        refused = int(rsp[2]) != int(rsp[3])
+                    except ValueError:
+                        refused = False      # a non-numeric argument is answered -1 (handled above)
             except UnicodeDecodeError:
                 refused = False
         elif o[1] in (0, 2):
